@@ -141,6 +141,34 @@ def transition(initial, target, transport):
     _no_enable(drive, initial, target, key)
 
 
+def sequence(initial, t1, t2, transport):
+    """two assignments in a row on the same node object (history): both must end in their target and
+    neither may enable operation unless its target asks for it"""
+    node = _node()
+    drive = D.Drive(initial, auto_delay=sx.choice(2, "auto_delay"))
+    sx.env().tick = 0.02
+    if transport == "sdo":
+        _attach_sdo(node, drive)
+    else:
+        _attach_pdo(node, drive)
+    key = "C19/sequence/%s->%s->%s/%s" % (initial, t1, t2, transport)
+    try:
+        node.state = t1
+        mid = len(drive.trace)
+        sx.prove(drive.state == t1, "first assignment did not end in its target", key + "/first")
+        node.state = t2
+    except (ValueError, RuntimeError) as e:
+        sx.fail("commandable target raised %s" % C.exc_name(e), key + "/raises")
+        return
+    sx.observe("trace", list(drive.trace))
+    sx.prove(drive.state == t2, "second assignment did not end in its target", key + "/second")
+    if t1 not in (D.OE, D.QSA):
+        sx.prove(D.OE not in drive.trace[1:mid], "operation enabled during the first assignment", key + "/enabled-first")
+    if t2 not in (D.OE, D.QSA) and t1 != D.OE:
+        sx.prove(D.OE not in drive.trace[mid:], "operation enabled during the second assignment", key + "/enabled-second")
+    sx.reach("sequence")
+
+
 def _no_enable(drive, initial, target, key):
     if target not in (D.OE, D.QSA):
         sx.prove(D.OE not in drive.trace[1:], "operation was enabled on the way to %s" % target,
@@ -202,6 +230,12 @@ def jobs(tier):
             out.append(dict(func="bad_target", params=dict(initial=ini, target=tgt)))
     for mode in D.MODES:
         out.append(dict(func="op_mode", params=dict(mode=mode)))
+    starts = (D.SOD, D.FAULT, D.OE) if tier == "quick" else D.ALL_STATES
+    for ini in starts:
+        for t1 in D.COMMANDABLE:
+            for t2 in D.COMMANDABLE:
+                for tr in ("sdo", "pdo"):
+                    out.append(dict(func="sequence", params=dict(initial=ini, t1=t1, t2=t2, transport=tr), weight=3))
     return out
 
 
@@ -215,14 +249,15 @@ META = dict(
                "clock (tick 20 ms) bounds every wait loop; exceeding a library time-out is reported as a violation.",
     bounds=dict(quick="all statuswords; 8x8 pairs x {SDO, PDO} x automatic-transition delay 0..2 reads; extra status "
                       "bits symbolic per read; invalid targets 'DISABLE VOLTAGE' and an arbitrary string from all 8 "
-                      "states; 9 modes x symbolic 32-bit support mask", thorough="same"),
+                      "states; 9 modes x symbolic 32-bit support mask; sequences of two assignments (3 start states x 5 x 5 "
+                      "targets x 2 transports)", thorough="sequences from all 8 start states"),
     outside_bounds=["drives without transition 16", "drives whose last controlword already had bit 7 set (no rising "
                     "edge for fault reset)", "real-time behaviour of the time-outs", "modes missing from NAME2CODE"],
     assumptions=["a status read is the only point where an automatic transition becomes visible"],
     stubs=["struct", "time.monotonic", "threading.Condition", "sdo.upload/download replaced on the instance (framing is "
            "C01's business)", "Network.send_message replaced on the instance"],
     required_reach=["decode-unknown"] + ["decode-" + s for s in D.ALL_STATES] +
-                   ["refused", "commanded", "bad-target-refused", "mode-refused", "mode-set"],
+                   ["refused", "commanded", "bad-target-refused", "mode-refused", "mode-set", "sequence"],
     limits=dict(quick=dict(max_decisions=20000), thorough=dict(max_decisions=20000)),
     validate_every=dict(quick=2, thorough=1),
 )
